@@ -389,7 +389,7 @@ func checkC03Forwarder(p *Prog, r *Report, rFw, rId, rOrd *Rule, top *ssa.Functi
 	var plain []queueSend
 	for _, f := range withAnons(top) {
 		for _, s := range sendsIn(f) {
-			if fv, _ := loadedField(s.Chan); fv != och {
+			if fv, _ := loadedField(p.resolveUp(s.Chan)); fv != och {
 				continue
 			}
 			lf := litFields(s.Val)
